@@ -220,6 +220,13 @@ class NetWorld(World):
             if list(gote) != eids:
                 return self.fail("C06", "network.structure", "edge identifiers of the network of session %d" % s,
                                  eids, list(gote))
+            # the positional indexes (used by the map-matcher and by the coordinate conversions)
+            gi = list(net.getIndexNodes())
+            if gi != ids or any(net.getNodeId(k) != ids[k] for k in range(len(ids))):
+                return self.fail("C06", "network.structure", "positional index of the nodes of session %d" % s, ids, gi)
+            if any(net.getEdgeId(k) != eids[k] for k in range(len(eids))):
+                return self.fail("C06", "network.structure", "positional index of the edges of session %d" % s, eids,
+                                 [net.getEdgeId(k) for k in range(len(eids))])
             # the identifier lists handed out belong to the caller, who uses them as work lists
             if isinstance(got, list):
                 del got[:]
